@@ -44,6 +44,10 @@ type checkRunner struct {
 	checkedRcptsPerCheck map[module.CheckState]map[string]struct{}
 	checkedRcptsLock     sync.Mutex
 
+	// Check states that have seen the message body. Protected by
+	// checkedRcptsLock.
+	checkedBody map[module.CheckState]struct{}
+
 	resolver      dns.Resolver
 	doDMARC       bool
 	didDMARCFetch bool
@@ -291,6 +295,20 @@ func (cr *checkRunner) checkBody(ctx context.Context, checks []module.Check, hea
 	}
 
 	return cr.runAndMergeResults(states, func(s module.CheckState) module.CheckResult {
+		// checkBody is called once for each block the message is
+		// processed by, the check used in several of them should see
+		// the body only once.
+		cr.checkedRcptsLock.Lock()
+		if _, ok := cr.checkedBody[s]; ok {
+			cr.checkedRcptsLock.Unlock()
+			return module.CheckResult{}
+		}
+		if cr.checkedBody == nil {
+			cr.checkedBody = make(map[module.CheckState]struct{})
+		}
+		cr.checkedBody[s] = struct{}{}
+		cr.checkedRcptsLock.Unlock()
+
 		res := s.CheckBody(ctx, header, body)
 		return res
 	})
